@@ -11,11 +11,13 @@ pub mod c04;
 pub mod c05;
 pub mod c06;
 pub mod c07;
+pub mod c08;
 pub mod c09;
 pub mod c11;
 pub mod c12;
 pub mod c13;
 pub mod c14;
+pub mod c15;
 pub mod codec;
 
 pub fn run(prop: &str, leg: &str, ctx: &Ctx, rep: &mut Report) -> bool {
@@ -34,6 +36,13 @@ pub fn run(prop: &str, leg: &str, ctx: &Ctx, rep: &mut Report) -> bool {
         ("C07", "small-exhaustive") => c07::small_exhaustive(ctx, rep),
         ("C07", "compress-sweep") => c07::compress_sweep(ctx, rep),
         ("C07", "cursor") => c07::cursor(ctx, rep),
+        ("C08", "salts") => c08::salts(ctx, rep),
+        ("C08", "processes") => c08::processes(ctx, rep),
+        ("C08", "child") => c08::child(ctx, rep),
+        ("C08", "check-file") => c08::check_file(ctx, rep),
+        ("C15", "determinism") => c15::determinism(ctx, rep),
+        ("C15", "bitflips") => c15::bitflips(ctx, rep),
+        ("C15", "child") => c15::child(ctx, rep),
         ("C09", "blocks") => c09::blocks(ctx, rep),
         ("C09", "totality") => c09::totality(ctx, rep),
         ("C09", "distribution") => c09::distribution(ctx, rep),
@@ -57,6 +66,7 @@ pub fn replay(v: &Value) -> bool {
         "C12" => c12::replay(r),
         "C07" => codec::replay(r),
         "C03" => c03::replay(r),
+        "C15" => c15::replay(r),
         "C04" => c04::replay(r),
         "C11" => c11::replay(r),
         "C13" => c13::replay(r),
